@@ -931,18 +931,57 @@ func triggerBeforeWaitRule(c *Ctx, rule string) {
 	}
 	// Client.doClose: nconn.Close() before reader.close()
 	if fn := p.Func("", "Client.doClose"); r.Anchor(rule, "Client.doClose", fn != nil) {
-		rc := findCall(fn, func(c *ssa.Call) bool {
-			return c.Call.StaticCallee() != nil && core.FnName(c.Call.StaticCallee()) == "close" && strings.Contains(fnShort(c.Call.StaticCallee()), "clientReader")
-		})
-		if rc == nil {
-			r.Fail(rule, "Client.doClose joins its reader", p.Pos(fn.Pos()), "reader.close() not found")
-		} else {
-			miss, path, _ := core.PathAvoiding(fn, nil, func(x ssa.Instruction) bool { return x == ssa.Instruction(rc) }, func(x ssa.Instruction) bool { return invokeOn(x, "Close", ".nconn") })
-			if miss {
-				r.FailPath(rule, "Client.doClose closes the socket before joining its reader", p.Pos(rc.Pos()), "the reader goroutine blocks in Read on a socket nobody closes", core.BlockPath(p, fn, path))
-			} else {
-				r.OK(rule, "Client.doClose closes the socket before joining its reader", p.Pos(rc.Pos()), "nconn.Close() on every path before reader.close()")
+		isReaderClose := func(x ssa.Instruction) bool {
+			c, ok := x.(*ssa.Call)
+			return ok && c.Call.StaticCallee() != nil && core.FnName(c.Call.StaticCallee()) == "close" && strings.Contains(fnShort(c.Call.StaticCallee()), "clientReader")
+		}
+		isSockClose := func(x ssa.Instruction) bool { return invokeOn(x, "Close", ".nconn") }
+		// helpers of the client that (within two levels) hold one of the two calls are walked as if
+		// they were written out in doClose
+		var holds func(h *ssa.Function, depth int) bool
+		holds = func(h *ssa.Function, depth int) bool {
+			for _, b := range h.Blocks {
+				for _, in := range b.Instrs {
+					if isReaderClose(in) || isSockClose(in) {
+						return true
+					}
+					if ci, ok := in.(*ssa.Call); ok && depth < 2 {
+						if g := ci.Call.StaticCallee(); g != nil && g != h && g.Pkg == fn.Pkg && g.Blocks != nil && g.Signature.Recv() != nil && types.Identical(g.Signature.Recv().Type(), fn.Signature.Recv().Type()) && holds(g, depth+1) {
+							return true
+						}
+					}
+				}
 			}
+			return false
+		}
+		type cst struct{ closed bool }
+		var badAt ssa.Instruction
+		nJoin := 0
+		ex := &pathExplorer{budget: 20000, anywhere: true}
+		ex.inline = func(h *ssa.Function) bool {
+			return h.Pkg == fn.Pkg && h.Signature.Recv() != nil && types.Identical(h.Signature.Recv().Type(), fn.Signature.Recv().Type()) && !token.IsExported(h.Name()) && holds(h, 0)
+		}
+		ex.onInstr = func(st any, in ssa.Instruction) any {
+			s := st.(cst)
+			if isSockClose(in) {
+				return cst{true}
+			}
+			if isReaderClose(in) {
+				nJoin++
+				if !s.closed && badAt == nil {
+					badAt = in
+				}
+			}
+			return s
+		}
+		ex.run(fn, cst{}, func(any, []ssa.Value) {})
+		switch {
+		case nJoin == 0:
+			r.Fail(rule, "Client.doClose joins its reader", p.Pos(fn.Pos()), "reader.close() not found")
+		case badAt != nil:
+			r.Fail(rule, "Client.doClose closes the socket before joining its reader", p.Pos(badAt.Pos()), "the reader goroutine blocks in Read on a socket nobody closes: a path reaches reader.close() without nconn.Close()")
+		default:
+			r.OK(rule, "Client.doClose closes the socket before joining its reader", p.Pos(fn.Pos()), "nconn.Close() on every path before reader.close() (helpers of the client walked in place)")
 		}
 	}
 }
@@ -957,8 +996,7 @@ func clientCloseRule(c *Ctx, rule string) {
 	if !r.Anchor(rule, "Client.doClose / Client.run", fn != nil && run != nil) {
 		return
 	}
-	isClose := func(x ssa.Instruction) bool { return invokeOn(x, "Close", ".nconn") }
-	miss, path, _ := core.PathAvoidingE(fn, nil, core.IsReturn, isClose, func(a, b *ssa.BasicBlock) bool {
+	nilEdge := func(a, b *ssa.BasicBlock) bool {
 		// the edge on which c.nconn is known to be nil
 		iff, ok := a.Instrs[len(a.Instrs)-1].(*ssa.If)
 		if !ok || a.Succs[0] == a.Succs[1] {
@@ -979,7 +1017,31 @@ func clientCloseRule(c *Ctx, rule string) {
 			return b == a.Succs[1]
 		}
 		return bo.Op == token.EQL && b == a.Succs[0]
-	})
+	}
+	// closesOrNil: every path of f to a return closes nconn, has seen it nil, or calls a method
+	// of the client (same receiver) of which the same holds — the closing extracted into a helper
+	var closesOrNil func(f *ssa.Function, depth int) (bool, []int)
+	closesOrNil = func(f *ssa.Function, depth int) (bool, []int) {
+		isClose := func(x ssa.Instruction) bool {
+			if invokeOn(x, "Close", ".nconn") {
+				return true
+			}
+			ci, ok := x.(*ssa.Call)
+			if !ok || depth >= 2 {
+				return false
+			}
+			h := ci.Call.StaticCallee()
+			if h == nil || h == f || h.Blocks == nil || h.Pkg != f.Pkg || h.Signature.Recv() == nil || len(f.Params) == 0 || len(ci.Call.Args) == 0 || ci.Call.Args[0] != ssa.Value(f.Params[0]) {
+				return false
+			}
+			ok2, _ := closesOrNil(h, depth+1)
+			return ok2
+		}
+		miss, path, _ := core.PathAvoidingE(f, nil, core.IsReturn, isClose, nilEdge)
+		return !miss, path
+	}
+	okClose, path := closesOrNil(fn, 0)
+	miss := !okClose
 	// the first `nconn != nil && baseURL != nil` test does not end the function: a nil edge there is still fine (nconn is nil)
 	if miss {
 		r.FailPath(rule, "Client.doClose closes the control socket", p.Pos(fn.Pos()), "doClose can return with an open control connection (not closed, not known to be nil): the socket is leaked and the peer sees the connection as established", core.BlockPath(p, fn, path))
